@@ -378,7 +378,82 @@ func (r *throttleLateRunner) Do(op []string) string {
 	return "ok"
 }
 
+// -- debounce when the goroutine of an expired timer starts LATE (real clock, one P)
+//
+//	CASE debouncelate <waitMs>
+//	latecancel <n> => ok | ran <trial>            the debounced function STARTED after cancel() had returned
+//	latecall <n>   => ok | early <trial> <gap us>  the function of the older call started after a newer call had returned,
+//	                                               less than `wait` after it
+//
+// time.AfterFunc does not run f when the timer expires: the runtime starts a goroutine for it, which may be scheduled
+// any time later; in that window Timer.Stop returns false and stops nothing.  Each trial makes the window deterministic:
+// one P, a second timer (the harness's own) due 1 ms after the debounce timer, and the runner spins past both
+// deadlines: when it finally blocks the scheduler expires both timers in one pass and runs the goroutine created LAST
+// first -- that one calls cancel() (or debounces again) and completes before f starts.  The verdict needs no clock for
+// `latecancel` (an atomic flag set strictly after cancel() returned); for `latecall` the gap is measured from a reading
+// taken AFTER the newer call returned to a reading taken at the START of f, so a gap below `wait` is unambiguous.
+type debounceLateRunner struct{ wait int }
+
+func (r *debounceLateRunner) Do(op []string) string {
+	n := atoi(op[1])
+	old := runtime.GOMAXPROCS(1)
+	defer runtime.GOMAXPROCS(old)
+	wait := c20ms(r.wait)
+	begin := time.Now()
+	for trial := 0; trial < n; trial++ {
+		if time.Since(begin) > hangLimit/4 {
+			break
+		}
+		debounce, cancel := gogu.NewDebounce(wait)
+		time.Sleep(time.Millisecond) // a fresh time slice: no pre-emption during the spin
+		start := time.Now()
+		switch op[0] {
+		case "latecancel":
+			var cancelReturned, ranAfter atomic.Bool
+			debounce(func() {
+				if cancelReturned.Load() {
+					ranAfter.Store(true)
+				}
+			})
+			time.AfterFunc(wait+time.Millisecond, func() {
+				cancel()
+				cancelReturned.Store(true)
+			})
+			for time.Since(start) < wait+3*time.Millisecond {
+			}
+			time.Sleep(6 * wait)
+			if ranAfter.Load() {
+				return "ran " + itoa(trial)
+			}
+		case "latecall":
+			var lastReturned, early atomic.Int64
+			cb := func() {
+				now := int64(time.Since(start))
+				if rt := lastReturned.Load(); rt != 0 && now >= rt && time.Duration(now-rt) < wait {
+					early.Store(now - rt + 1)
+				}
+			}
+			debounce(cb)
+			time.AfterFunc(wait+time.Millisecond, func() {
+				debounce(cb)
+				lastReturned.Store(int64(time.Since(start)))
+			})
+			for time.Since(start) < wait+3*time.Millisecond {
+			}
+			time.Sleep(6 * wait)
+			cancel()
+			if e := early.Load(); e != 0 {
+				return "early " + itoa(trial) + " " + itoa(int(time.Duration(e)/time.Microsecond))
+			}
+		default:
+			panic("harness: bad op " + op[0])
+		}
+	}
+	return "ok"
+}
+
 func init() {
+	kinds["debouncelate"] = func(p []string) Runner { return &debounceLateRunner{wait: atoi(p[0])} }
 	kinds["throttlelate"] = func(p []string) Runner { return &throttleLateRunner{dur: atoi(p[0])} }
 	kinds["throttlerace"] = func(p []string) Runner { return &throttleRaceRunner{trailing: s2b(p[0])} }
 	for _, k := range []string{"debounce", "delay", "throttle"} {
@@ -564,6 +639,16 @@ func genC20(g *Gen) {
 				ops = append(ops, "race 2000")
 			}
 			g.Emit("throttlerace", []string{tr}, ops)
+		}
+	}
+	// ---- debounce: the goroutine of an expired timer starts late (real clock, one P) -----------------
+	for _, w := range []int{5, 8} {
+		if g.Mine() {
+			rounds := "4"
+			if g.Thorough() {
+				rounds = "25"
+			}
+			g.Emit("debouncelate", []string{itoa(w)}, []string{"latecancel " + rounds, "latecall " + rounds})
 		}
 	}
 	// ---- throttle: a trailing timer that runs late (real clock, one P) -------------------------------
